@@ -452,12 +452,15 @@ impl<'a> Read for PatReader<'a> {
         if buf.len() > self.max_buf {
             self.max_buf = buf.len();
         }
+        let mut idle = 0usize;
         loop {
             if self.pos >= self.data.len() {
                 return Ok(0);
             }
-            let st = if self.pat.is_empty() { Step::N(usize::MAX) } else { self.pat[self.i % self.pat.len()] };
+            // a script without any (remaining) data step delivers everything that is left
+            let st = if self.pat.is_empty() || idle > self.pat.len() { Step::N(usize::MAX) } else { self.pat[self.i % self.pat.len()] };
             self.i += 1;
+            idle += 1;
             match st {
                 Step::N(n) => {
                     let k = n.min(buf.len()).min(self.data.len() - self.pos);
